@@ -606,13 +606,28 @@ def has_side_effect(node: ast.AST, safe_callable_whitelist: Collection[str] = fr
     ):
         return True
 
-    if isinstance(node, (ast.ClassDef, ast.FunctionDef, ast.AsyncFunctionDef)):
-        return node.name != "_"
+    if isinstance(node, (ast.FunctionDef, ast.AsyncFunctionDef)):
+        # Decorators, default values and annotations are evaluated when the function is defined
+        return node.name != "_" or any(
+            has_side_effect(item, safe_callable_whitelist)
+            for item in itertools.chain(node.decorator_list, [node.args, node.returns])
+        )
+
+    if isinstance(node, ast.ClassDef):
+        # Decorators, bases and the class body are evaluated when the class is defined
+        return node.name != "_" or any(
+            has_side_effect(item, safe_callable_whitelist)
+            for item in itertools.chain(
+                node.decorator_list,
+                node.bases,
+                (keyword.value for keyword in node.keywords),
+                node.body,
+        ))
 
     if isinstance(node, ast.For):
         return any(
             has_side_effect(item, safe_callable_whitelist)
-            for item in itertools.chain([node.target], [node.iter], node.body)
+            for item in itertools.chain([node.target], [node.iter], node.body, node.orelse)
         )
 
     if isinstance(node, ast.Lambda):
@@ -688,14 +703,21 @@ def has_side_effect(node: ast.AST, safe_callable_whitelist: Collection[str] = fr
 
     if isinstance(node, ast.Slice):
         return any(
-            has_side_effect(child, safe_callable_whitelist) for child in (node.lower, node.upper)
+            has_side_effect(child, safe_callable_whitelist)
+            for child in (node.lower, node.upper, node.step)
         )
 
-    if isinstance(node, (ast.DictComp)) and has_side_effect(node.value, safe_callable_whitelist):
-        return True
+    if isinstance(node, ast.DictComp):
+        return any(
+            has_side_effect(item, safe_callable_whitelist)
+            for item in itertools.chain([node.key, node.value], node.generators)
+        )
 
-    if isinstance(node, (ast.SetComp, ast.ListComp, ast.GeneratorExp, ast.DictComp)):
-        return any(has_side_effect(item, safe_callable_whitelist) for item in node.generators)
+    if isinstance(node, (ast.SetComp, ast.ListComp, ast.GeneratorExp)):
+        return any(
+            has_side_effect(item, safe_callable_whitelist)
+            for item in itertools.chain([node.elt], node.generators)
+        )
 
     if isinstance(node, ast.comprehension):
         return not (
@@ -710,7 +732,9 @@ def has_side_effect(node: ast.AST, safe_callable_whitelist: Collection[str] = fr
             safe_callable_whitelist = safe_callable_whitelist | {node.func.attr}
 
         return (
-            not all(
+            # What a call returns is not known to be safe to call, e.g. f()()
+            any(isinstance(child, ast.Call) for child in ast.walk(node.func))
+            or not all(
                 child.id in safe_callable_whitelist or child.id == "_"
                 for child in ast.walk(node.func)
                 if isinstance(child, ast.Name)
@@ -746,7 +770,11 @@ def has_side_effect(node: ast.AST, safe_callable_whitelist: Collection[str] = fr
             targets = node.targets
         else:
             targets = [node.target]
-        return has_side_effect(node.value) or any(has_side_effect(target) for target in targets)
+        return (
+            has_side_effect(node.value)
+            or any(has_side_effect(target) for target in targets)
+            or has_side_effect(getattr(node, "annotation", None))
+        )
 
     if isinstance(node, ast.Index):
         return has_side_effect(node.value)
